@@ -237,6 +237,41 @@ def run(ctx):
     psf_close = prog.fn('psf_close', 'sndfile.c')
 
     # ------------------------------------------------------------------ TMP-PAIR
+    ctx.rule('FD-REOPEN', 'file_io.c: a descriptor field that receives the result of psf_open_fd more than once in one function (the resource-fork probes) is never overwritten while it holds an open '
+             'descriptor: every path from one such store to the next passes psf_close_fd on that field, leaves the function, or is the path on which the first open failed (the false edge of '
+             '`(fd = psf_open_fd (...)) >= 0`)', floor=2)
+    n_fr = 0
+    for g in sorted([x for x in prog.lib_fns() if x.file.endswith('/file_io.c')], key=lambda x: x.line):
+        opens = [(lv, a) for lv, a, r in assigned_lvalues(g) if r is not None and g.unwrap(r).get('callee') == 'psf_open_fd' and g.cfg.point(a) is not None]
+        by = {}
+        for lv, a in opens:
+            by.setdefault(lv, []).append(a)
+        for lv, sts in by.items():
+            sts = sorted(sts, key=lambda a: (a.get('l'), a.get('c')))
+            for s1, s2 in zip(sts, sts[1:]):
+                n_fr += 1
+                closes = {g.cfg.point(c) for c in g.calls('psf_close_fd') if lv in g.s(g.args(c)[0]) and g.cfg.point(c) is not None}
+                p1, p2 = g.cfg.point(s1), g.cfg.point(s2)
+
+                def fail_edge(b, si, _s1=s1):
+                    blk = g.cfg.blocks[b]
+                    if 'cond' not in blk or len(blk['succs']) != 2:
+                        return False
+                    cn = g.N[blk['cond']] if isinstance(blk['cond'], int) else blk['cond']
+                    cu = g.unwrap(cn)
+                    if cu.get('op') in ('&&', '||') and blk['elems']:
+                        e_ = blk['elems'][-1]
+                        cu = g.unwrap(g.N[e_] if isinstance(e_, int) else e_)
+                    if cu.get('k') == 'BinaryOperator' and cu.get('op') in ('>=', '>') and g.within(_s1, cu):
+                        return si == 1
+                    if cu.get('k') == 'BinaryOperator' and cu.get('op') == '<' and g.within(_s1, cu):
+                        return si == 0
+                    return False
+                w = g.cfg.path_avoiding(p1, {p2[0]}, closes, start_inclusive=False, edge_ok=lambda b, si: not fail_edge(b, si))
+                ctx.ob('FD-REOPEN', '%s:%s@%s' % (g.name, lv, s2.get('l')), w is None, g.loc(s2), 'the store at line %s is reached from the open at line %s only after psf_close_fd or a failed open' % (s2.get('l'), s1.get('l')) if w is None else
+                       '%s is overwritten by a new psf_open_fd (line %s) on a path on which the descriptor opened at line %s is still open (lines %s): that descriptor is leaked' % (lv, s2.get('l'), s1.get('l'), g.cfg.block_lines(w)[-5:]), None)
+    ctx.require(n_fr >= 2, 'only %d repeated descriptor stores found in file_io.c' % n_fr)
+
     ctx.rule('TMP-PAIR', 'every FILE* field obtained from psf_open_tmpfile is fclosed, and the recorded temp name removed, in the same guarded region of a close hook', floor=1)
     for (rec, fld), sites in own.owned_fields.items():
         if not any(src == 'psf_open_tmpfile' for f, n, src in sites):
